@@ -52,7 +52,15 @@ type OpJ struct {
 	Sil    int    `json:"sil"`    // expire: which created silence
 }
 
+// InhJ is one inhibition rule with equality matchers.
+type InhJ struct {
+	Src   map[string]string `json:"src"`
+	Tgt   map[string]string `json:"tgt"`
+	Equal []string          `json:"equal,omitempty"`
+}
+
 type Scenario struct {
+	Inhibit    []InhJ              `json:"inhibit_rules,omitempty"`
 	GW, GI, RI int64               `json:"-"`
 	GWs        string              `json:"group_wait"`
 	GIs        string              `json:"group_interval"`
@@ -108,6 +116,22 @@ func (sc *Scenario) YAML() string {
 	for _, name := range vh.SortedKeys(sc.Receivers) {
 		fmt.Fprintf(&b, "- name: %s\n", name)
 	}
+	if len(sc.Inhibit) > 0 {
+		b.WriteString("inhibit_rules:\n")
+		for _, ir := range sc.Inhibit {
+			b.WriteString("- source_matchers:\n")
+			for _, k := range vh.SortedKeys(ir.Src) {
+				fmt.Fprintf(&b, "  - %s=%q\n", k, ir.Src[k])
+			}
+			b.WriteString("  target_matchers:\n")
+			for _, k := range vh.SortedKeys(ir.Tgt) {
+				fmt.Fprintf(&b, "  - %s=%q\n", k, ir.Tgt[k])
+			}
+			if len(ir.Equal) > 0 {
+				fmt.Fprintf(&b, "  equal: [%s]\n", strings.Join(quoteAll(ir.Equal), ", "))
+			}
+		}
+	}
 	return b.String()
 }
 
@@ -131,6 +155,7 @@ type GenOpts struct {
 	MultiInt bool
 	NflogGC  bool
 	Flap     bool // emphasise resolve / re-fire around flushes and slow deliveries
+	Inhibit  bool // 1-2 inhibition rules over the scenario's label sets (drawn last: the other draws are unchanged)
 }
 
 func Gen(r *vh.Rand, o GenOpts) Scenario {
@@ -276,6 +301,24 @@ func Gen(r *vh.Rand, o GenOpts) Scenario {
 	for i := range sc.Ops {
 		if sc.Ops[i].Dt > lim {
 			sc.Ops[i].Dt = lim
+		}
+	}
+	if o.Inhibit {
+		nr := r.Range(1, 2)
+		for i := 0; i < nr; i++ {
+			a, b := sc.LabelSets[r.Intn(len(sc.LabelSets))], sc.LabelSets[r.Intn(len(sc.LabelSets))]
+			var ir InhJ
+			switch r.Intn(4) {
+			case 0: // one job inhibits the other, within an alert name
+				ir = InhJ{Src: map[string]string{"job": "a"}, Tgt: map[string]string{"job": "b"}, Equal: []string{"alertname"}}
+			case 1: // one particular alert inhibits an alert name (it may carry that name itself: the two-sided exception)
+				ir = InhJ{Src: map[string]string{"inst": a["inst"]}, Tgt: map[string]string{"alertname": b["alertname"]}}
+			case 2: // equal on a label that some alerts lack (missing = empty)
+				ir = InhJ{Src: map[string]string{"inst": a["inst"]}, Tgt: map[string]string{"job": b["job"]}, Equal: []string{"sev"}}
+			default: // both sides can match the same alert
+				ir = InhJ{Src: map[string]string{"alertname": a["alertname"]}, Tgt: map[string]string{"job": b["job"]}, Equal: []string{"job"}}
+			}
+			sc.Inhibit = append(sc.Inhibit, ir)
 		}
 	}
 	return sc
